@@ -42,6 +42,14 @@ pub fn seq(k: usize, terms: usize) -> Scaled {
     Scaled { name: format!("seq({k} fields over {terms} terminals)"), g: Grammar { n: 1, t: terms, prods: vec![(0, (0..k).map(|i| t(i % terms)).collect())] }, depth: k + 1 }
 }
 
+/// A long right-hand side inside a context: `Top -> S x`, `S -> a a x a^(k-3)` (a state with a small dot acts on
+/// the lookahead on which the long rule is reduced).
+pub fn seqctx(k: usize) -> Scaled {
+    let mut rhs = vec![t(0), t(0), t(1)];
+    rhs.extend((3..k).map(|_| t(0)));
+    Scaled { name: format!("seq-in-context({k} fields)"), g: Grammar { n: 2, t: 2, prods: vec![(0, vec![n(1), t(1)]), (1, rhs)] }, depth: k + 2 }
+}
+
 /// k alternatives `S -> t_i N_i`, `N_i -> t_i`.
 pub fn alts(k: usize) -> Scaled {
     let mut prods = vec![];
@@ -123,17 +131,90 @@ pub fn lalr(k: usize) -> Scaled {
     Scaled { name: format!("lalr-not-slr x {k}"), g: Grammar { n: 1 + 3 * k, t: 4 * k, prods }, depth: 5 }
 }
 
+/// k variants of one enum, all of the same shape: `S -> t_a t_b t_c` with (a, b, c) the base-7 digits of the variant
+/// number - a reduction by the wrong rule builds a well-typed but wrong tree.
+pub fn digits(k: usize) -> Scaled {
+    assert!(k <= 343);
+    let prods = (0..k).map(|i| (0u8, vec![t(i / 49), t(i / 7 % 7), t(i % 7)])).collect();
+    Scaled { name: format!("same-shape variants({k})"), g: Grammar { n: 1, t: 7, prods }, depth: 4 }
+}
+
+/// Conflicting grammars with large states (C11, C04): `S -> E u_i (i < f) | u_0 X`, `E -> a_j (j < a) | eps`, `X -> a_0`:
+/// the start state holds about a*f items, and `E -> . [u_0]` conflicts with the shift of u_0.
+pub fn conflict_wide(a: usize, f: usize) -> Scaled {
+    // nonterminals S=0, E=1, X=2 ; terminals u_0..u_{f-1}, then a_0..a_{a-1}
+    let mut prods = vec![];
+    for i in 0..f {
+        prods.push((0u8, vec![n(1), t(i)]));
+    }
+    prods.push((0u8, vec![t(0), n(2)]));
+    for j in 0..a {
+        prods.push((1u8, vec![t(f + j)]));
+    }
+    prods.push((1u8, vec![]));
+    prods.push((2u8, vec![t(f)]));
+    Scaled { name: format!("conflict in a wide state({a} alternatives x {f} followers)"), g: Grammar { n: 3, t: a + f, prods }, depth: 3 }
+}
+
+/// Ambiguous expressions with k binary operators: every operator conflicts with every other in k states.
+pub fn ambiguous(k: usize) -> Scaled {
+    let mut prods = vec![(0u8, vec![t(k)])];
+    for i in 0..k {
+        prods.push((0u8, vec![n(0), t(i), n(0)]));
+    }
+    Scaled { name: format!("ambiguous expressions({k} operators)"), g: Grammar { n: 1, t: k + 1, prods }, depth: 3 }
+}
+
+/// k copies of the LR(1)-but-not-LALR(1) grammar behind distinct leading terminals: reduce/reduce conflicts in k merged states.
+pub fn lr1_not_lalr(k: usize) -> Scaled {
+    // per copy i: nonterminals S_i = 1+3i, A_i, B_i ; terminals a,b,c,d,e = 6i+1..6i+5, lead = 6i
+    let mut prods = vec![];
+    for i in 0..k {
+        prods.push((0u8, vec![t(6 * i), n(1 + 3 * i)]));
+    }
+    for i in 0..k {
+        let (s_, a_, b_) = ((1 + 3 * i) as u8, 2 + 3 * i, 3 + 3 * i);
+        let x = |j: usize| t(6 * i + j);
+        prods.push((s_, vec![x(1), n(a_), x(4)]));
+        prods.push((s_, vec![x(2), n(b_), x(4)]));
+        prods.push((s_, vec![x(1), n(b_), x(5)]));
+        prods.push((s_, vec![x(2), n(a_), x(5)]));
+        prods.push((a_ as u8, vec![x(3)]));
+        prods.push((b_ as u8, vec![x(3)]));
+    }
+    Scaled { name: format!("lr1-not-lalr x {k}"), g: Grammar { n: 1 + 3 * k, t: 6 * k, prods }, depth: 4 }
+}
+
 pub fn families(deep: bool) -> Vec<Scaled> {
     let mut v = vec![];
+    for k in if deep { vec![16, 17, 100, 255, 256, 257, 258, 343] } else { vec![257, 343] } {
+        v.push(digits(k));
+    }
+    for (a, f) in if deep { vec![(3, 3), (8, 8), (15, 17), (16, 16), (16, 17), (16, 20), (30, 30), (40, 20)] } else { vec![(16, 17), (16, 20)] } {
+        v.push(conflict_wide(a, f));
+    }
+    for k in if deep { vec![2, 9, 10, 11, 16, 17, 20] } else { vec![10, 16] } {
+        v.push(ambiguous(k));
+    }
+    for k in if deep { vec![1, 2, 9, 10] } else { vec![2, 10] } {
+        v.push(lr1_not_lalr(k));
+    }
     for k in if deep { vec![1, 3, 4, 9, 15] } else { vec![3, 9] } {
         v.push(lalr(k));
     }
     for l in if deep { vec![1, 7, 8, 9, 10, 11, 15, 16, 17, 25, 26, 31, 32, 33, 50, 59] } else { vec![8, 9, 10, 16, 26, 33, 52] } {
         v.push(expr(l));
     }
-    for k in if deep { vec![14, 15, 16, 17, 31, 32, 33, 63, 64, 65, 100, 127, 128, 129, 200, 254] } else { vec![16, 17, 32, 33, 64, 65, 128, 129] } {
+    for k in if deep { vec![14, 15, 16, 17, 31, 32, 33, 63, 64, 65, 100, 127, 128, 129, 200, 254, 255, 256, 257, 258, 259, 300, 511, 512, 513, 514, 600] } else { vec![16, 17, 32, 33, 64, 65, 128, 129, 255, 256, 257, 258, 300, 514] } {
         v.push(seq(k, 62.min(k)));
         v.push(seq(k, 1));
+    }
+    for k in if deep { vec![16, 17, 64, 65, 255, 256, 257, 258, 259, 260, 300, 513, 514, 515] } else { vec![17, 256, 257, 258, 259, 515] } {
+        v.push(seqctx(k));
+        // the same with the long rule declared first (rule numbers, and with them every packed key, change parity)
+        let mut r = seqctx(k);
+        r.name += ", long rule declared first";
+        v.push(r);
     }
     for k in if deep { vec![9, 10, 11, 16, 26, 27, 32, 33, 61, 62] } else { vec![10, 11, 27, 62] } {
         v.push(alts(k));
@@ -156,6 +237,9 @@ pub fn families(deep: bool) -> Vec<Scaled> {
 /// The presentation of member `i` of the list: rotating styles (named / tuple, `_` masks, struct where possible).
 pub fn presentation(s: &Scaled, i: usize) -> Presentation {
     let mut p = Presentation::rotating(&s.g, i as u64 * 131 + 7);
+    if s.name.contains("seq-in-context") {
+        p.decl_order = if s.name.contains("declared first") { vec![1, 0] } else { vec![0, 1] };
+    }
     p.names.insert("depth".into(), s.depth.to_string());
     p
 }
